@@ -97,10 +97,66 @@ def gen_cases(rng, tier):
   szs = spec.edge_sizes(tier, multiple_of=1, lo=2)   # nr = 2: a table of ONE row, at r = cutoff
   for c0 in range(0, len(szs), 12):
     cases.append({"kind": "sizes", "sizes": szs[c0:c0 + 12], "route": "api_legacy", "model": None, "style": 0})
+  # Potential(..., h=H) with a callable that offers no derivative: the documented fallback is the central difference of
+  # step H, (U(r+H/2) - U(r-H/2)) / H, so the force column holds exactly that stencil of the energy function
+  # (seeded change C01r10 dropped H on the way and always differenced with the default 1e-6)
+  for i in range(8 if tier == "quick" else 80):
+    cases.append({"kind": "custom_h", "h": [0.05, 0.02, 0.1, 0.004][i % 4], "A": spec.rfloat(rng, 200.0, 2000.0, 1), "rho": spec.rfloat(rng, 0.25, 0.5, 3),
+                  "C": spec.rfloat(rng, 0.0, 30.0, 2), "nr": rng.choice([6, 11, 40]), "cutoff": rng.choice([5.0, 6.5, 10.0]), "route": ["api_class", "api_legacy", "gradient"][i % 3],
+                  "model": None, "style": 0})
   return cases
 
 
+def run_custom_h(case, ctx):
+  import math
+  import atsim.potentials as ap
+  from atsim.potentials.pair_tabulation import LAMMPS_PairTabulation
+  A, rho, C, h, nr, cutoff = case["A"], case["rho"], case["C"], case["h"], case["nr"], case["cutoff"]
+  U = lambda r: A * math.exp(-r / rho) - C / r ** 6
+  ctx.cls("kind:custom_h")
+  ctx.cls("custom_h_route:" + case["route"])
+  if case["route"] == "gradient":
+    # the documented helper itself: gradient(func, h) is the stencil of step h
+    g = ap.gradient(U, h)
+    for k in range(1, nr):
+      r = cutoff * k / (nr - 1)
+      want = (U(r + h / 2.0) - U(r - h / 2.0)) / ((r + h / 2.0) - (r - h / 2.0))
+      ctx.count("values_compared")
+      if not (abs(g(r) - want) <= 1e-9 * max(abs(want), 1e-6)):
+        ctx.violation("force", "gradient(U, h=%r)(%r) = %r, the central difference of step h is %r" % (h, r, g(r), want), what="force", mech="custom_h")
+        return
+    ctx.nontrivial(True)
+    return
+  pots = [ap.Potential("Aa", "Bb", U, h=h), ap.Potential("Bb", "Bb", U, h)]
+  out = io.StringIO()
+  if case["route"] == "api_class":
+    LAMMPS_PairTabulation(pots, cutoff, nr).write(out)
+  else:
+    ap.writePotentials("LAMMPS", pots, cutoff, nr, out)
+  secs = readers.read_lammps_table(out.getvalue())
+  if len(secs) != 2:
+    ctx.violation("format", "%d blocks for 2 potentials" % len(secs), what="format")
+    return
+  for sec in secs:
+    for row in sec["rows"]:
+      r = float(row[1])
+      if r - h / 2.0 <= 0:
+        continue
+      want = -(U(r + h / 2.0) - U(r - h / 2.0)) / ((r + h / 2.0) - (r - h / 2.0))
+      got = float(row[3])
+      ctx.count("values_compared")
+      ctx.count("force_custom_step_rows")
+      # r is printed with 8 decimals: the stencil is evaluated at the printed r +- 5e-9 -> relative slack 1e-8 * |U''/U'| ~ 1e-7
+      if not (abs(got - want) <= 2e-6 * abs(want) + 2e-8):
+        ctx.violation("force", "Potential(h=%r): force at r=%s is %r, minus the central difference of step h is %r (with the default step it would be %r)" % (
+          h, row[1], got, want, -(U(r + 5e-7) - U(r - 5e-7)) / 1e-6), what="force", mech="custom_h")
+        return
+  ctx.nontrivial(True)
+
+
 def run_case(case, ctx):
+  if case.get("kind") == "custom_h":
+    return run_custom_h(case, ctx)
   if case.get("kind") == "sizes":
     import sizesweep
     ctx.cls("kind:row_count_sweep")
